@@ -622,7 +622,8 @@ def np_arange(ex, *args, dtype=None, **kw):
     else:
         start, stop, step = a
     if all(isinstance(x, int) for x in (start, stop, step)):
-        out = lift(np.arange(start, stop, step))
+        d = as_dtype(dtype)
+        out = lift(np.arange(start, stop, step, dtype=np.dtype(d.name) if d is not None and d.name not in ('int', 'float', 'bool', 'complex') else None))
         out.meta = {'arange': (start, step)}
         return out
     if scalar_kind(start) != 'int' or scalar_kind(stop) != 'int' or scalar_kind(step) != 'int':
@@ -1272,3 +1273,29 @@ def np_sort(ex, a, axis=-1, **kw):
     ex.add_forall(lambda t: z3.Implies(z3.And(t >= 0, t + 1 < tonum(a.shape[0])), f(t) <= f(t + 1)))
     ex.__dict__.setdefault('sorted_arrays', []).append(out)
     return out
+
+
+@ext('numpy.shape')
+def np_shape(ex, a):
+    if is_scalar(a):
+        return ()
+    return tuple(_arr(ex, a).shape)
+
+
+@ext('numpy.broadcast_to')
+def np_broadcast_to(ex, a, shape, **kw):
+    a = _arr(ex, a)
+    shape = list(shape) if isinstance(shape, (tuple, list)) else [shape]
+    if a.ndim > len(shape):
+        raise SymRaise('ValueError', 'input operand has more dimensions than allowed by the axis remapping')
+    off = len(shape) - a.ndim
+    flags = []
+    for j, d in enumerate(a.shape):
+        if ex.branch(tobool(s_eq(d, shape[off + j]))):
+            flags.append(False)
+        elif ex.branch(tobool(s_eq(d, 1))):
+            flags.append(True)
+        else:
+            raise SymRaise('ValueError', 'operands could not be broadcast together with remapped shapes')
+    ael = a.elem
+    return Arr(shape, lambda idx: ael(tuple(0 if flags[j] else idx[off + j] for j in range(len(flags)))), a.kind, prov=a.prov, view=True, np_dtype=a.np_dtype)
